@@ -328,8 +328,16 @@ def inline_hoisted(tree, expected):
                         loads_all = sum(1 for n in ast.walk(fn) if isinstance(n, ast.Name) and n.id == t and isinstance(n.ctx, ast.Load))
                         if loads_rest == 0 or loads_rest != loads_all:
                             continue              # read before the assignment or outside the rest of its block (e.g. in the next iteration of a loop)
-                        rebound = any(isinstance(n, ast.Name) and n.id in reads and isinstance(n.ctx, (ast.Store, ast.Del)) for r in rest for n in ast.walk(r))
-                        if rebound:
+                        rebound, dirty = False, False
+                        for r in rest:                 # a read name re-bound BEFORE a later read of the temporary changes what the expression means there
+                            has_load = any(isinstance(n, ast.Name) and n.id == t and isinstance(n.ctx, ast.Load) for n in ast.walk(r))
+                            has_store = any(isinstance(n, ast.Name) and n.id in reads and isinstance(n.ctx, (ast.Store, ast.Del)) for n in ast.walk(r))
+                            if has_load and (dirty or (has_store and not isinstance(r, (ast.Assign, ast.AugAssign, ast.AnnAssign)))):
+                                rebound = True
+                                break
+                            dirty = dirty or has_store
+                        in_loop = isinstance(owner, (ast.For, ast.While)) and field == "body"
+                        if rebound or (dirty and not in_loop and False):
                             continue
                         sub = _SubstAll(t, st.value, reads)
                         trial = [sub.visit(copy.deepcopy(r)) for r in rest]
@@ -395,6 +403,8 @@ def merge_one_armed(tree, recorded, expected):
                         if not before:
                             continue
                         new = ast.Assign(targets=[ast.Name(id=x, ctx=ast.Store())], value=ast.IfExp(test=st.test, body=st.body[0].value, orelse=ast.Name(id=x, ctx=ast.Load())))
+                        if isinstance(st.test, ast.UnaryOp) and isinstance(st.test.op, ast.Not) and isinstance(st.test.operand, ast.Name) and st.test.operand.id == x:
+                            new.value = ast.BoolOp(op=ast.Or(), values=[ast.Name(id=x, ctx=ast.Load()), st.body[0].value])           # if not x: x = E   is   x = x or E
                         ast.copy_location(new, st)
                         ast.fix_missing_locations(new)
                         body[k] = new
@@ -491,7 +501,9 @@ def _neg_final_guards(tree):
 
 
 def neg_guards_of(tree):
-    return sorted({ast.dump(g.test.operand) for _, g, _ in _neg_final_guards(tree)})
+    """the functions that have a negated final guard (by qualified name: a change inside the test must not make the guard look new)"""
+    funcs, _ = index_functions("", tree)
+    return sorted(q for q, f in funcs.items() if any(True for _ in _neg_final_guards(f)))
 
 
 def load_neg_guards():
@@ -504,12 +516,14 @@ def swap_negated_final_guard(tree, recorded):
     """`if not c: return A` directly followed by `return B` as the last statement of the block is `if c: return B` ; `return A` (only where the
     confirmed tree did not already have that negated guard)"""
     n = 0
-    for body, g, last in list(_neg_final_guards(tree)):
-        if ast.dump(g.test.operand) in recorded:
+    funcs, _ = index_functions("", tree)
+    for q, f in funcs.items():
+        if q in recorded:
             continue
-        g.test = g.test.operand
-        g.body[0], body[-1] = last, g.body[0]
-        n += 1
+        for body, g, last in list(_neg_final_guards(f)):
+            g.test = g.test.operand
+            g.body[0], body[-1] = last, g.body[0]
+            n += 1
     return n
 
 
